@@ -6,7 +6,9 @@ from .. import lean, proto, gen, util
 REQUIRED = ['Petl.C13.' + n for n in (
     'select_is_filter select_complement_partition rowselect_partition comparison_selectors_use_C04_order '
     'selectlt_ge_complement selectle_gt_complement range_selectors negated_selectors negated_selector_is_complement '
-    'rowslice_eq_islice head_is_take tail_is_suffix').split()]
+    'rowslice_eq_islice head_is_take tail_is_suffix selectors_as_expected selecteq_sem selectne_sem selectlt_sem selectle_sem '
+    'selectgt_sem selectge_sem selectin_sem selectnotin_sem selectrangeopenleft_sem selectrangeopenright_sem selectrangeopen_sem '
+    'selectrangeclosed_sem selecttrue_sem selectfalse_sem selectnone_sem selectnotnone_sem').split()]
 
 REFS = [None, 1, 1.0, 2, 2.5, 'a', 'b', (1, 'a'), [1, 'a'], True, b'a']
 CELLS = gen.SMALL_KEYS + [[1, 'a'], 0, '', ()]
@@ -26,7 +28,13 @@ def run(ctx):
                 'rowslice/head/tail/skip over all (start, stop, step) triples 0..n+1 (None included). Real vs model (exact '
                 'sequence) and partition laws directly on the real outputs. Non-trivial: at least 2 data rows.')
     ctx.assumptions += ['itertools.islice; re.search (search/searchcomplement are checked as partitions only)']
-    ctx.prove(['PetlProofs.Props.C13'], REQUIRED)
+    from translators import selectors as _sel
+    try:
+        info = _sel.generate()
+        ctx.bridge('translator: %d select* functions of selects.py turned into predicate expressions' % info['selectors'], True)
+    except Exception as e:   # noqa
+        ctx.bridge('translator: selector table extracted', False, repr(e))
+    ctx.prove(['PetlProofs.Props.C13', 'PetlProofs.Props.C13Sel'], REQUIRED)
     rng = ctx.rng
     n = 1500 if ctx.thorough() else 250
     jobs = []
